@@ -137,3 +137,31 @@ pub fn digest(ir: &str) -> (usize, u64) {
     let c = canon(ir);
     (c.len(), crate::exec::fnv(c.join("\n").as_bytes()))
 }
+
+/// suite `clifir`: the distinct (program, registered helper ids) pairs of the engine suites with at most 64 slots, as
+/// `clifdump <prog> <ids> res` cases: the resolved canonical form (which also names, where the text allows it, the variable an
+/// operand reads) is printed in full by both sides and compared line by line
+pub fn gen(w: &mut impl std::io::Write, thorough: bool, seed: u64) {
+    let mut buf: Vec<u8> = vec![];
+    crate::exec::gen_engines(&mut buf, thorough, seed);
+    crate::exec::gen_clifprobe(&mut buf, thorough, seed);
+    let text = String::from_utf8(buf).unwrap();
+    let mut seen: std::collections::HashSet<(String, String)> = std::collections::HashSet::new();
+    let mut k = 0usize;
+    for l in text.lines() {
+        let mut prog = ""; let mut helpers = "-"; let mut patched = false;
+        for t in l.split_ascii_whitespace() {
+            if let Some(v) = t.strip_prefix("prog=") { prog = v; }
+            if let Some(v) = t.strip_prefix("helpers=") { helpers = v; }
+            if t.starts_with("patch=") && t != "patch=-" { patched = true; }
+        }
+        if prog.is_empty() || prog == "-" || prog.len() > 16 * 64 || patched { continue; }
+        // exec cases write helper ids in hex, `clifdump` takes them in decimal
+        let ids: Vec<String> = if helpers == "-" { vec![] } else { helpers.split(',').filter_map(|e| e.split(':').next()).filter_map(|h| u32::from_str_radix(h, 16).ok()).map(|k| k.to_string()).collect() };
+        let ids = if ids.is_empty() { "-".to_string() } else { ids.join(",") };
+        if !seen.insert((prog.to_string(), ids.clone())) { continue; }
+        k += 1;
+        if !thorough && k % 2 == 0 { continue; }
+        writeln!(w, "clifdump {} {} res", prog, ids).unwrap();
+    }
+}
